@@ -976,9 +976,11 @@ func (s *server) MutateRows(req *btpb.MutateRowsRequest, stream btpb.Bigtable_Mu
 		if err := applyMutations(tbl, r, entry.Mutations, now); err != nil {
 			code = int32(codes.Internal)
 			msg = err.Error()
+		} else {
+			// Only store the row if every mutation of the entry applied; a failed entry must leave the row untouched.
+			verifPoint("MutateRows.beforeWrite", entry.RowKey)
+			tbl.updateRow(r)
 		}
-		verifPoint("MutateRows.beforeWrite", entry.RowKey)
-		tbl.updateRow(r)
 		res.Entries[i] = &btpb.MutateRowsResponse_Entry{
 			Index:  int64(i),
 			Status: &statpb.Status{Code: code, Message: msg},
